@@ -28,6 +28,12 @@ type Immutable struct {
 	Except []string
 }
 
+type AfterClause struct {
+	Callee string
+	K      int
+	Clause
+}
+
 type LoopSpec struct {
 	K          int
 	Invariants []Clause
@@ -61,6 +67,7 @@ type Contract struct {
 	File       string
 	Line       int
 	Covers     []Clause // cover: must be satisfiable at some return
+	Afters     []AfterClause
 	Uses       []string // lemma names assumed at entry
 	Ghost      bool
 }
@@ -98,23 +105,25 @@ type Axiom struct {
 	Lemma   bool // proved as an obligation before being assumed
 	Props   []string
 	Uses    []string
+	Manual  bool   // only available where named by "use=" / "uses" (definitions too heavy to hand out everywhere)
+	Induct  string // lemma proved by induction on this (integer, >= 0) quantified variable
 	File    string
 	Line    int
 }
 
 type SpecDB struct {
-	Contracts map[string]*Contract
-	UFuns     map[string]*UFun
-	Defines   map[string]*Define
-	Axioms    []*Axiom
-	Order     []string // declaration order of ufun/define names
-	Files     []string
-	SortAlias map[string][2]string // name -> (Go type expression, package path)
-	SortDecls map[string][][2]string // every declaration of each alias (clash check after loading)
-	Ghosts    map[string][2]string // ghost variable -> (sort name, package path)
-	GhostVia  map[string]string    // ghost variable -> Go type whose holders may change it
+	Contracts  map[string]*Contract
+	UFuns      map[string]*UFun
+	Defines    map[string]*Define
+	Axioms     []*Axiom
+	Order      []string // declaration order of ufun/define names
+	Files      []string
+	SortAlias  map[string][2]string   // name -> (Go type expression, package path)
+	SortDecls  map[string][][2]string // every declaration of each alias (clash check after loading)
+	Ghosts     map[string][2]string   // ghost variable -> (sort name, package path)
+	GhostVia   map[string]string      // ghost variable -> Go type whose holders may change it
 	Immutables []Immutable
-	Guards    []*Guard
+	Guards     []*Guard
 }
 
 // Guard: the fields of a struct that may only be accessed while its mutex is held.
@@ -321,6 +330,10 @@ func (db *SpecDB) LoadContractFile(path, defaultPkg string) error {
 			for _, o := range splitNames(m[3]) {
 				if strings.HasPrefix(o, "use=") {
 					ax.Uses = append(ax.Uses, strings.TrimPrefix(o, "use="))
+				} else if o == "manual" {
+					ax.Manual = true
+				} else if strings.HasPrefix(o, "induct=") {
+					ax.Induct = strings.TrimPrefix(o, "induct=")
 				} else {
 					ax.Props = append(ax.Props, o)
 				}
@@ -354,6 +367,26 @@ func (db *SpecDB) LoadContractFile(path, defaultPkg string) error {
 				}
 			case "use":
 				cur.Uses = append(cur.Uses, splitNames(rest)...)
+			case "after":
+				// after <Callee>@<k> [label:] <expr>: proved right after the k-th call of Callee in this
+				// function (result = the call's result), then available to the rest of the path
+				f := strings.SplitN(rest, " ", 2)
+				at := strings.SplitN(f[0], "@", 2)
+				if len(f) != 2 || len(at) != 2 {
+					return fail(l.n, "bad after clause %q", rest)
+				}
+				k, err := strconv.Atoi(at[1])
+				if err != nil {
+					return fail(l.n, "bad after clause %q", rest)
+				}
+				cl, err := parseClause(l.n, f[1], true)
+				if err != nil {
+					return err
+				}
+				if cl.Label == "" {
+					cl.Label = strconv.Itoa(len(cur.Afters) + 1)
+				}
+				cur.Afters = append(cur.Afters, AfterClause{Callee: at[0], K: k, Clause: cl})
 			case "requires", "ensures", "cover":
 				cl, err := parseClause(l.n, rest, true)
 				if err != nil {
